@@ -196,7 +196,12 @@ def _match_value(pred, val):
 
 def match_known(known, component, tags):
     for e in known:
-        if "component_prefix" in e:
+        if "component_regex" in e:
+            import re
+
+            if not re.match(e["component_regex"], component):
+                continue
+        elif "component_prefix" in e:
             if not component.startswith(e["component_prefix"]):
                 continue
         elif e.get("component") != component:
